@@ -588,4 +588,101 @@ theorem run_decodeBlock_qlpc (h : Hdr) (resn : Nat) (coff : Int) (coefs res buf 
   rw [run_resLoop]
   rfl
 
+theorem run_blockCmd_nz {h : Hdr} {convert : Bool} {st : St} (cmd resn : Nat) (body r : List Bool)
+    (buf1 : List Int) (hz : cmd ≠ FN_ZERO)
+    (hdec : (decodeBlock h cmd resn (coffset h st.shift (st.chans.getD st.chan default).off) st.bs
+              (st.chans.getD st.chan default).buf).run uvarGet (body ++ r) = .ok (buf1, r)) :
+    (blockCmd h convert cmd st).run uvarGet (uvarPut ENERGYSIZE resn ++ (body ++ r))
+      = .ok (finishBlock h convert st (st.chans.getD st.chan default).off buf1, r) := by
+  unfold blockCmd
+  simp only [hz, ne_eq, not_false_eq_true, if_true]
+  rw [Prog.run_bind_ok uvarGet (run_uvar_put _ _ _), Prog.run_bind_ok uvarGet hdec]
+  simp
+
+theorem run_blockCmd_zero {h : Hdr} {convert : Bool} {st : St} (r : List Bool) :
+    (blockCmd h convert FN_ZERO st).run uvarGet r
+      = .ok (finishBlock h convert st (st.chans.getD st.chan default).off
+          (setSlice (st.chans.getD st.chan default).buf h.nwrap (List.replicate st.bs 0)), r) := by
+  unfold blockCmd
+  simp only [ne_eq, not_true_eq_false, if_false]
+  rw [Prog.run_bind_ok uvarGet (Prog.run_pure uvarGet 0 r),
+    Prog.run_bind_ok uvarGet (run_decodeBlock_zero _ _ _ _ _ _)]
+  simp
+
+/-- the code of a block command and the bits that follow it -/
+def blockCode : Cmd → Nat
+  | .diff k _ _ => diffCode k
+  | .qlpc _ _ _ => FN_QLPC
+  | _ => FN_ZERO
+
+def blockBody : Cmd → List Bool
+  | .diff _ resn res => uvarPut ENERGYSIZE resn ++ res.flatMap (varPut resn)
+  | .qlpc resn coefs res =>
+    uvarPut ENERGYSIZE resn ++ uvarPut LPCQSIZE coefs.length ++ coefs.flatMap (varPut LPCQUANT)
+      ++ res.flatMap (varPut resn)
+  | _ => []
+
+def isBlock : Cmd → Bool
+  | .diff _ _ _ => true
+  | .qlpc _ _ _ => true
+  | .zero => true
+  | _ => false
+
+/-- the per-command part of `WFcmds` for block commands -/
+def blockWF (h : Hdr) (bs : Nat) : Cmd → Prop
+  | .diff _ _ res => res.length = bs
+  | .qlpc _ coefs res => coefs.length ≤ h.maxnlpc ∧ res.length = bs ∧ h.nwrap ≤ bs
+  | _ => True
+
+theorem run_blockCmd {h : Hdr} {convert : Bool} {st : St} {ss : SSt} (hrel : Rel h st ss) (c : Cmd)
+    (hb : isBlock c = true) (hwf : blockWF h st.bs c) (r : List Bool) :
+    ∃ st', (blockCmd h convert (blockCode c) st).run uvarGet (blockBody c ++ r) = .ok (st', r) ∧
+      Rel h st' (semCmd h convert ss c) := by
+  have hc := hrel.chans st.chan hrel.chanlt
+  have hcoff := coffset_rel hc st.shift
+  have hhist := hist_of_buf hc.hist
+  cases c with
+  | diff k resn res =>
+    simp only [blockWF] at hwf
+    have hrun : (blockCmd h convert (blockCode (.diff k resn res)) st).run uvarGet
+        (blockBody (.diff k resn res) ++ r) = .ok (finishBlock h convert st (st.chans.getD st.chan default).off
+          (setSlice (st.chans.getD st.chan default).buf 0 (runBlock (predDiff k
+            (coffset h st.shift (st.chans.getD st.chan default).off)) res
+            (slice (st.chans.getD st.chan default).buf 0 h.nwrap).reverse).reverse), r) := by
+      simp only [blockCode, blockBody, List.append_assoc]
+      apply run_blockCmd_nz _ _ _ _ _ (diffCode_ne_zero k)
+      rw [← hwf]
+      exact run_decodeBlock_diff _ _ _ _ _ _ _
+    refine ⟨_, hrun, ?_⟩
+    simp only [semCmd]
+    apply finish_rel hrel
+    rw [hhist, hcoff, ← hwf]
+    have := blockPost_diff h k (semCoffset h st.shift (ss.chans.getD st.chan default).means) res
+      (st.chans.getD st.chan default).buf (ss.chans.getD st.chan default).hist
+    simpa [semHist, ← hrel.chan, ← hrel.shift] using this
+  | qlpc resn coefs res =>
+    simp only [blockWF] at hwf
+    obtain ⟨hn, hl, hnw⟩ := hwf
+    have hrun := run_blockCmd_nz (h := h) (convert := convert) (st := st) FN_QLPC resn
+      (uvarPut LPCQSIZE coefs.length ++ coefs.flatMap (varPut LPCQUANT) ++ res.flatMap (varPut resn)) r _
+      (by decide) (hl ▸ run_decodeBlock_qlpc h resn (coffset h st.shift (st.chans.getD st.chan default).off)
+        coefs res (st.chans.getD st.chan default).buf r hn)
+    refine ⟨_, by simpa only [blockCode, blockBody, List.append_assoc] using hrun, ?_⟩
+    simp only [semCmd]
+    apply finish_rel hrel
+    rw [hhist, hcoff, ← hl]
+    have := blockPost_qlpc h coefs (semCoffset h st.shift (ss.chans.getD st.chan default).means) res
+      (st.chans.getD st.chan default).buf (ss.chans.getD st.chan default).hist
+      (Nat.le_trans hn (nwrap_ge h).2) (by omega)
+    simpa [semHist, ← hrel.chan, ← hrel.shift] using this
+  | zero =>
+    refine ⟨_, by simpa only [blockCode, blockBody, List.nil_append] using run_blockCmd_zero r, ?_⟩
+    simp only [semCmd]
+    apply finish_rel hrel
+    have := blockPost_zero h.nwrap st.bs (st.chans.getD st.chan default).buf
+      (ss.chans.getD st.chan default).hist hc.hist
+    simpa [semHist, ← hrel.chan, ← hrel.bs] using this
+  | blocksize n => simp [isBlock] at hb
+  | bitshift n => simp [isBlock] at hb
+
 end PdsVerif.Model.Shorten
